@@ -92,8 +92,9 @@ def mk(fn, lazy):
         import xmlschema, xmlschema._limits as L
         from xmlschema.exceptions import XMLResourceExceeded
         d, n, md, me = inp['depth'], inp['elements'], inp['max_depth'], inp['max_elements']
+        noise = '<!-- c --><?pi x?>' * inp.get('comments', 0)
         # document of nesting depth d with n elements in total (n >= d): a chain of d plus n-d leaves under the root
-        doc = '<a>' * d + '</a>' * (d - 1) + '<b/>' * (n - d) + '</a>' if d > 1 else '<a>' + '<b/>' * (n - 1) + '</a>'
+        doc = (noise + '<a>') * d + '</a>' * (d - 1) + '<b/>' * (n - d) + '</a>' if d > 1 else '<a>' + noise + '<b/>' * (n - 1) + '</a>'
         depth = d if n == d or d > 1 else (2 if n > 1 else 1)
         if d == 1 and n > 1: depth = 2
         old = (L.MAX_XML_DEPTH, L.MAX_XML_ELEMENTS); L.MAX_XML_DEPTH, L.MAX_XML_ELEMENTS = md, me
@@ -111,7 +112,9 @@ def mk(fn, lazy):
     def _(tier, rng):
         for md in (1, 3, 10):
             for d in (md - 1, md, md + 1):
-                if d >= 1: yield dict(depth=d, elements=d, max_depth=md, max_elements=1000)
+                if d >= 1:
+                    yield dict(depth=d, elements=d, max_depth=md, max_elements=1000)
+                    yield dict(depth=d, elements=d, max_depth=md, max_elements=1000, comments=2)      # comments and PIs are events too: they must not move the counters
         for me in (1, 5, 12):
             for n in (me - 1, me, me + 1):
                 if n >= 1: yield dict(depth=1, elements=n, max_depth=100, max_elements=me)
